@@ -379,6 +379,10 @@ type appKind struct {
 	appState func() any // genesis app state
 	params   func() abci.ConsensusParams
 	plan     func() ([][]string, error) // the clients' transactions, grouped per intended block
+	dumpSkip func(k []byte) bool        // application DB keys left out of the content comparison
+	// reopenCheap: after the node is gone, open a fresh application instance on the DB to read height/hash
+	// from "disk" (otherwise the running instance's Info() is used; re-opening gno.land costs seconds)
+	reopenCheap bool
 }
 
 // ---------------------------------------------------------------------------------------------
@@ -390,6 +394,7 @@ type nodeOpts struct {
 	epoch      int
 	verbose    bool
 	kind       *appKind
+	keepKV     bool
 }
 
 type life struct {
@@ -401,6 +406,8 @@ type life struct {
 	postHash [2]string
 	final    *snap
 	obs      *finalObs
+	appKV    map[string]string // debug (-k): full content of the application DB
+	liveApp  *[2]any           // height / hash reported by the running application instance at the end
 }
 
 type finalObs struct {
@@ -444,7 +451,7 @@ func genesisDoc(kind *appKind) *types.GenesisDoc {
 	return g
 }
 
-func dumpDB(d *crashdb.DB) string {
+func dumpDB(d *crashdb.DB, skip func(k []byte) bool) string {
 	h := sha256.New()
 	it, err := d.MemDB.Iterator(nil, nil)
 	if err != nil {
@@ -454,6 +461,9 @@ func dumpDB(d *crashdb.DB) string {
 	n := 0
 	for ; it.Valid(); it.Next() {
 		k, v := it.Key(), it.Value()
+		if skip != nil && skip(k) {
+			continue
+		}
 		fmt.Fprintf(h, "%d:%d:", len(k), len(v))
 		h.Write(k)
 		h.Write(v)
@@ -496,6 +506,13 @@ func runLife(from snap, o nodeOpts) (lf *life) {
 		}
 		if proxy_ != nil {
 			proxy_.Stop()
+		}
+		if inst != nil && !o.kind.reopenCheap {
+			func() {
+				defer func() { recover() }()
+				h, hash := inst.height()
+				lf.liveApp = &[2]any{h, hex.EncodeToString(hash)}
+			}()
 		}
 		if inst != nil && inst.close != nil {
 			inst.close()
@@ -625,7 +642,7 @@ func runLife(from snap, o nodeOpts) (lf *life) {
 		lf.outcome = "stuck"
 	case <-exited:
 		lf.outcome = "exit"
-	case <-time.After(120 * time.Second):
+	case <-time.After(45 * time.Minute): // hang protection only; never decides anything
 		lf.outcome = "timeout"
 	}
 	return
@@ -659,7 +676,11 @@ func (lf *life) collect(o nodeOpts) {
 		st := sm.LoadState(rec.st)
 		ob.StateH = st.LastBlockHeight
 		ob.StateAppHash = hex.EncodeToString(st.AppHash)
-		if inst, err := o.kind.newApp(rec.app, slog.New(slog.NewTextHandler(io.Discard, nil))); err == nil {
+		if lf.liveApp != nil {
+			ob.AppH, ob.AppAppHash = lf.liveApp[0].(int64), lf.liveApp[1].(string)
+		} else if !o.kind.reopenCheap {
+			ob.AppH = -1
+		} else if inst, err := o.kind.newApp(rec.app, slog.New(slog.NewTextHandler(io.Discard, nil))); err == nil {
 			h, hash := inst.height()
 			ob.AppH, ob.AppAppHash = h, hex.EncodeToString(hash)
 			if inst.close != nil {
@@ -694,7 +715,15 @@ func (lf *life) collect(o nodeOpts) {
 				ob.SeenCommits = append(ob.SeenCommits, "missing")
 			}
 		}
-		ob.BsDump, ob.StDump, ob.AppDump = dumpDB(rec.bs), dumpDB(rec.st), dumpDB(rec.app)
+		ob.BsDump, ob.StDump, ob.AppDump = dumpDB(rec.bs, nil), dumpDB(rec.st, nil), dumpDB(rec.app, o.kind.dumpSkip)
+		if o.keepKV {
+			lf.appKV = map[string]string{}
+			it, _ := rec.app.MemDB.Iterator(nil, nil)
+			for ; it.Valid(); it.Next() {
+				lf.appKV[string(it.Key())] = string(it.Value())
+			}
+			it.Close()
+		}
 	}()
 	lf.obs = ob
 }
